@@ -502,6 +502,8 @@ def vStep (loose : Bool) (x : VX) : MEv → Option VX
       | none => if (dateKey h).isSome || !hasEnd h then some x else none
   | .data _ => some x
   | .ns p u => some ⟨trackV x.v p u, x.openC⟩
+  | .cref r => if (crefText r).isSome then some x else none
+  | .eref _ => some x
 
 def vRun (loose : Bool) : VX → List MEv → Option VX
   | v, [] => some v
@@ -844,6 +846,24 @@ theorem step_proj (o : Ops) (s : MSt) (e : MEv) :
   | ns p u =>
     simp only [mstep, vStep, projX, track_incontent]
     rw [← track_proj]
+  | cref r =>
+    simp only [mstep, vStep]
+    cases crefText r with
+    | none => rfl
+    | some t =>
+      simp only [Option.isSome_some, ↓reduceIte]
+      unfold handleData
+      split
+      · rfl
+      · rename_i top rest hs
+        simp [projX, hs, topPlain]
+  | eref r =>
+    simp only [mstep, vStep]
+    unfold handleData
+    split
+    · rfl
+    · rename_i top rest hs
+      simp [projX, hs, topPlain]
 
 /-- **The version sub-machine**: for every `Ops`, state and event sequence, the version (and the
 prefix map) the handler machine ends with is what `vRun` computes from the version and prefix map it
@@ -1037,21 +1057,21 @@ theorem date_stop (o : Ops) (s : MSt) (tag k pk : Str) (ps : List Str) (rest : L
     (hk : dateKey (handlerName s.c tag) = some (k, pk)) (hst : s.stack = ⟨k, true, ps⟩ :: rest)
     (hin : s.c.inentry = true) (hen : s.c.entries = e0 :: es) (hnc : s.c.incontent = false) :
     ∃ s', mstep o s (.stop tag) = .ok s' ∧ s'.stack = rest ∧ s'.c.inentry = true ∧
-      ∃ e', s'.c.entries = e' :: es ∧ dget e'.d (canonKey pk) = some (.t (parsedOf o (o.fix (stripS ps.flatten)))) := by
+      ∃ e', s'.c.entries = e' :: es ∧ dget e'.d (canonKey pk) = some (.t (parsedOf o (o.fix (o.decodeEnt (S "xml") (stripS ps.flatten))))) := by
   obtain ⟨n1, n2, n3, n4, n5⟩ := dateKey_not_structural _ _ hk
   have hu := dateKey_not_uri _ _ _ hk
   have hp := dateKey_plain _ _ _ hk
-  have hv : popValue o s k = some (o.fix (stripS ps.flatten)) := by
+  have hv : popValue o s k = some (o.fix (o.decodeEnt (S "xml") (stripS ps.flatten))) := by
     have hu' : k ∉ canBeRelativeUri := by simpa using hu
     unfold popValue; simp [hst, hu']
-  have hpop : pop o s k = ⟨{ s.c with entries := writeEntry k (o.fix (stripS ps.flatten)) s.c.depth e0 :: es }, rest⟩ := by
+  have hpop : pop o s k = ⟨{ s.c with entries := writeEntry k (o.fix (o.decodeEnt (S "xml") (stripS ps.flatten))) s.c.depth e0 :: es }, rest⟩ := by
     unfold pop
     simp only [hst, bne_self_eq_false, Bool.false_eq_true, ↓reduceIte, Bool.not_true, hu, Bool.false_and, hp, hin, hen, updHead]
-  refine ⟨⟨endFinish o (setContext (pop o s k).c pk (.t (parsedOf o (o.fix (stripS ps.flatten))))), (pop o s k).stack⟩, ?_, ?_, ?_, ?_⟩
+  refine ⟨⟨endFinish o (setContext (pop o s k).c pk (.t (parsedOf o (o.fix (o.decodeEnt (S "xml") (stripS ps.flatten)))))), (pop o s k).stack⟩, ?_, ?_, ?_, ?_⟩
   · simp only [mstep, endTag, hnc, dateKey_not_content _ _ hk, dateKey_not_ext _ _ hk, dateKey_not_lg _ _ hk, Option.isSome_none, Bool.or_self, endTag0, n2, n3, n4, n5, Bool.or_self, Bool.false_eq_true, ↓reduceIte, hk, hv, parsedOf]
   · simp only [hpop]
   · simp only [hpop, endFinish, setContext, hin, ↓reduceIte]
-  · refine ⟨{ (writeEntry k (o.fix (stripS ps.flatten)) s.c.depth e0) with d := fset (writeEntry k (o.fix (stripS ps.flatten)) s.c.depth e0).d pk (.t (parsedOf o (o.fix (stripS ps.flatten)))) }, ?_, ?_⟩
+  · refine ⟨{ (writeEntry k (o.fix (o.decodeEnt (S "xml") (stripS ps.flatten))) s.c.depth e0) with d := fset (writeEntry k (o.fix (o.decodeEnt (S "xml") (stripS ps.flatten))) s.c.depth e0).d pk (.t (parsedOf o (o.fix (o.decodeEnt (S "xml") (stripS ps.flatten))))) }, ?_, ?_⟩
     · simp only [hpop, endFinish, setContext, hin, ↓reduceIte, updHead]
     · simp only [fset]; exact dget_dset_same _ _ _
 
@@ -1068,7 +1088,7 @@ theorem date_element_parsed (o : Ops) (s : MSt) (tag k pk t : Str) (e0 : Entry) 
     (hk : dateKey (handlerName s.c tag) = some (k, pk)) (hin : s.c.inentry = true) (hen : s.c.entries = e0 :: es)
     (hnc : s.c.incontent = false) :
     ∃ s' e', mrun o s [.start tag [], .data t, .stop tag] = .ok s' ∧ s'.stack = s.stack ∧ s'.c.entries = e' :: es ∧
-      dget e'.d (canonKey pk) = some (.t (parsedOf o (o.fix (stripS t)))) := by
+      dget e'.d (canonKey pk) = some (.t (parsedOf o (o.fix (o.decodeEnt (S "xml") (stripS t))))) := by
   obtain ⟨c1, h1, he1, hi1, hn1, hc1⟩ := date_start o s tag k pk hk hnc
   have hk1 : dateKey (handlerName c1 tag) = some (k, pk) := by
     have : handlerName c1 tag = handlerName s.c tag := by unfold handlerName; rw [hn1]
@@ -1334,13 +1354,13 @@ theorem dsetDefault_absent (d : D) (k : Str) (v : V) (h : dget d k = none) : dse
 theorem guid_not_permalink_verbatim (o : Ops) (s : MSt) (ps : List Str) (rest : List Elem) (e0 : Entry) (es : List Entry)
     (hst : s.stack = ⟨S "id", true, ps⟩ :: rest) (hin : s.c.inentry = true) (hen : s.c.entries = e0 :: es)
     (hg : s.c.guidislink = false) (hfresh : e0.depths.find? (·.1 == S "id") = none) :
-    dget (contextD (endGuidCore o s)) (S "id") = some (.s (o.fix (stripS ps.flatten))) ∧
+    dget (contextD (endGuidCore o s)) (S "id") = some (.s (o.fix (o.decodeEnt (S "xml") (stripS ps.flatten)))) ∧
     dget (contextD (endGuidCore o s)) (S "link") = dget e0.d (S "link") := by
   obtain ⟨_, _, _, k4, _, _, k7, k8, _, k10, k11⟩ := lg_eqs
-  have hpop : pop o s (S "id") = ⟨{ s.c with entries := writeEntry (S "id") (o.fix (stripS ps.flatten)) s.c.depth e0 :: es }, rest⟩ := by
+  have hpop : pop o s (S "id") = ⟨{ s.c with entries := writeEntry (S "id") (o.fix (o.decodeEnt (S "xml") (stripS ps.flatten))) s.c.depth e0 :: es }, rest⟩ := by
     unfold pop
     simp only [hst, bne_self_eq_false, Bool.false_eq_true, ↓reduceIte, Bool.not_true, hg, Bool.or_false, Bool.and_false, k7, hin, hen, updHead]
-  have hw : (writeEntry (S "id") (o.fix (stripS ps.flatten)) s.c.depth e0).d = dset e0.d (S "id") (.s (o.fix (stripS ps.flatten))) := by
+  have hw : (writeEntry (S "id") (o.fix (o.decodeEnt (S "xml") (stripS ps.flatten))) s.c.depth e0).d = dset e0.d (S "id") (.s (o.fix (o.decodeEnt (S "xml") (stripS ps.flatten)))) := by
     unfold writeEntry
     simp only [hfresh, Option.map_none, ↓reduceIte, fset, k4]
   unfold endGuidCore
@@ -1352,7 +1372,7 @@ theorem guid_not_permalink_verbatim (o : Ops) (s : MSt) (ps : List Str) (rest : 
 
 /-- the value `pop("id")` computes for a permalink guid: the stripped text joined against the current base (when non-empty), repaired -/
 def guidValue (o : Ops) (c : Core) (ps : List Str) : Str :=
-  o.fix (if !(stripS ps.flatten).isEmpty then o.join c.base.baseuri.toList (stripS ps.flatten) else stripS ps.flatten)
+  o.fix (o.decodeEnt (S "xml") (if !(stripS ps.flatten).isEmpty then o.join c.base.baseuri.toList (stripS ps.flatten) else stripS ps.flatten))
 
 /-- **A permalink guid is the entry's link when the entry has none** (`_end_guid`): with the flag true (no `isPermaLink` attribute, or
 `"true"`), for every text, in an entry that has no `link` yet, both `id` and `link` of the entry are the text resolved against the
